@@ -21,7 +21,7 @@ RULE = ("(A) seeded call histories of 1-5 pipeflow calls on one net object over 
 ASSUMPTIONS = ["hook H2 reports the alpha used for the step, the per-variable error, the tolerances and the verdict of each iteration"]
 CONFIG = {"quick": {"shards": 8, "timeout_s": 600, "histories": 420, "driver_budgets": [1, 2, 3]},
           "thorough": {"shards": 16, "timeout_s": 3000, "histories": 9000, "driver_budgets": [1, 2, 3, 4]}}
-REQUIRED_COUNTERS = ["returns_checked", "failures_checked", "stages_converged", "stages_exhausted", "nr_iterations_observed",
+REQUIRED_COUNTERS = ["stage_endings_judged_against_requested_tolerances", "stage_endings_with_unequal_tolerances", "returns_checked", "failures_checked", "stages_converged", "stages_exhausted", "nr_iterations_observed",
                      "failure_after_success_checked", "driver_scripts", "driver_converged", "driver_step_rejections",
                      "runs_automatic", "returned_flows_vs_tight_solution_checks", "runs_mode_bidirectional", "runs_mode_sequential", "runs_mode_heat"]
 EXHAUSTIVE = {"quick": False, "thorough": False}
@@ -252,6 +252,10 @@ def make_history(case):
             opts.update(tol_p=1e-9, tol_m=1e-9, tol_res=1e-8, tol_T=1e-8)
         elif t < 0.4:
             opts.update(tol_p=1e-14, tol_m=1e-14, tol_res=1e-15)     # unreachable tolerances
+        elif t < 0.65:
+            # unequal tolerances, loose residual bound: the step criteria alone decide when the loop stops
+            opts.update(tol_p=float(rng.choice([1e-9, 1e-7, 1e-4, 5e-2])), tol_m=float(rng.choice([1e-9, 1e-7, 1e-4, 5e-2])),
+                        tol_T=float(rng.choice([1e-8, 1e-3, 1e-1])), tol_res=float(rng.choice([1e-3, 1.0])))
         calls.append({"opts": opts, "use_bad": bool(how != "none" and rng.random() < 0.6)})
     return spec, bad, how, calls
 
@@ -265,6 +269,10 @@ def tables_hold_numbers(net):
             if num.notna().values.any():
                 out.append(k)
     return out
+
+
+TOL_OF = {"mdot": "tol_m", "p": "tol_p", "mdotslack": "tol_m", "T": "tol_T", "Tout": "tol_T", "TOUT": "tol_T"}
+TOL_DEFAULT = {"tol_m": 1e-5, "tol_p": 1e-5, "tol_T": 1e-3, "tol_res": 1e-3}
 
 
 def check_trace(obs, trace, returned, opts, desc):
@@ -285,10 +293,16 @@ def check_trace(obs, trace, returned, opts, desc):
             obs.count("stages_converged")
             last = iters[-1]
             errs = {k: float(v) for k, v in last["errors"].items()}
-            tols = {k: float(v) for k, v in last["tols"].items()}
+            # judged against the tolerances the caller asked for (the option layer), not against what the loop says it used
+            tols = {k: float(opts.get(TOL_OF[k], TOL_DEFAULT[TOL_OF[k]])) if k in TOL_OF else float(v) for k, v in last["tols"].items()}
+            asked_res = float(opts.get("tol_res", TOL_DEFAULT["tol_res"]))
+            if any(k in TOL_OF for k in errs):
+                obs.count("stage_endings_judged_against_requested_tolerances")
+            if len({tols[k] for k in tols}) > 1:
+                obs.count("stage_endings_with_unequal_tolerances")
             rn = float(last["residual_norm"])
             bad = [k for k in errs if math.isnan(errs[k]) or errs[k] > tols[k]]
-            if bad or math.isnan(rn) or rn > float(last["tol_res"]):
+            if bad or math.isnan(rn) or rn > min(float(last["tol_res"]), asked_res):
                 obs.violate("stage_converged_out_of_tolerance", "stage %s marked converged with errors %s (tols %s), residual %.3g (tol %.3g)"
                             % (end["mode"], errs, tols, rn, last["tol_res"]), **desc)
             if last["nonlinear_method"] == "automatic":
